@@ -121,6 +121,8 @@ Fixpoint pairs_valid_utf8 (data : list N) (offs : list Z) : bool :=
   end.
 
 (* views (Columnar format, "Variable-size Binary View Layout") *)
+(* values of at most this many bytes are stored inline (tied to arrow_data::MAX_INLINE_VIEW_LEN by Proofs/C09_GenTie.v) *)
+Definition max_inline_view_len : N := 12.
 Definition view_at (a : parr) (i : nat) : N := le_at (buf a 0) 16 (p_off a + i).
 Definition view_len (v : N) : N := N.land v (N.ones 32).
 Definition view_prefix (v : N) : N := N.land (N.shiftr v 32) (N.ones 32).
@@ -132,7 +134,7 @@ Fixpoint starts_with (l p : list N) : bool :=
   match p, l with [], _ => true | x :: p', y :: l' => N.eqb x y && starts_with l' p' | _, [] => false end.
 Definition spec_view (utf8 : bool) (data : list (list N)) (v : N) : bool :=
   let len := view_len v in
-  if (len <=? 12)%N then
+  if (len <=? max_inline_view_len)%N then
     (* inlined: bytes after the value are zero padding *)
     N.eqb (N.shiftr v (32 + 8 * len)) 0 && (negb utf8 || valid_utf8 (view_inline_bytes v))
   else
